@@ -67,23 +67,32 @@ class ParallelMailboxLock:
         assert self.lock_file.minimum <= no < self.lock_file.maximum
         self.no = no - self.lock_file.minimum
         self.counter = None
+        self.task_lock = Lock()  # lockf does not exclude tasks of one process
 
     async def __aenter__(self):
-        while True:
-            try:
-                fcntl.lockf(self.lock_file.fd, fcntl.LOCK_NB | fcntl.LOCK_EX,
-                            1, self.no)
-            except OSError:
-                await sleep(0)
-                continue
-            break
-        data = os.pread(self.lock_file.fd, 1, self.no)
-        self.counter = data[0] if data else 0
+        await self.task_lock.acquire()
+        try:
+            while True:
+                try:
+                    fcntl.lockf(self.lock_file.fd,
+                                fcntl.LOCK_NB | fcntl.LOCK_EX, 1, self.no)
+                except OSError:
+                    await sleep(0)
+                    continue
+                break
+            data = os.pread(self.lock_file.fd, 1, self.no)
+            self.counter = data[0] if data else 0
+        except BaseException:
+            self.task_lock.release()
+            raise
 
     async def __aexit__(self, a, b, c):
-        os.pwrite(self.lock_file.fd, bytes((self.counter,)), self.no)
-        fcntl.lockf(self.lock_file.fd, fcntl.LOCK_UN, 1, self.no)
-        self.counter = None
+        try:
+            os.pwrite(self.lock_file.fd, bytes((self.counter,)), self.no)
+            fcntl.lockf(self.lock_file.fd, fcntl.LOCK_UN, 1, self.no)
+            self.counter = None
+        finally:
+            self.task_lock.release()
 
     def next_counter(self):
         ret = self.counter
